@@ -31,8 +31,9 @@ def str_registry(name):
 def explore(ch, params, out):
     """Shared exploration: returns dict(samples, gen, reg, cfg) or None if inference failed (failure recorded)."""
     from vflib import oracles, pipeline
-    grammar = params.get("kinds") == "GRAMMAR1"
+    grammar = params.get("kinds") in ("GRAMMAR1", "GRAMMAR2")
     kinds = jsonsym.grammar1() if grammar else getattr(jsonsym, params.get("kinds", "KINDS_FULL"))
+    wrapper = ch.choose("depth2_wrapper", ["wrap_list", "wrap_obj"]) if params.get("kinds") == "GRAMMAR2" else None
     n = params.get("samples", 2)
     keys = params.get("keys", ["a"])
     sym = params.get("symbolic_leaves", True)
@@ -51,6 +52,9 @@ def explore(ch, params, out):
     # two decodings of the same genome: leaves from the chooser (symbolic under CrossHair) / fixed representatives
     mk = jsonsym.sample_from_descriptors if grammar else jsonsym.sample
     # the constant key `fix` may be absent from some samples (so that a sample can be the empty object)
+    if wrapper:
+        for i in range(n):
+            cfg["kinds"][i] = {k: (wrapper, d) for k, d in cfg["kinds"][i].items()}
     has_fix = [ch.flag(f"s{i}.has_fix_key") if params.get("optional_fix") else True for i in range(n)]
     cfg["has_fix"] = has_fix
 
@@ -229,6 +233,9 @@ def parts(tier):
            shards=16, timeout=900, path_timeout=30, mode="CH-P+CH-E"),
         CH("grammar_depth1_pairs", "vflib.props.c01:scen_accept",
            {"kinds": "GRAMMAR1", "samples": 2, "keys": ["a"], "frameworks": ["pydantic", "attrs"], "layouts": ["flat"], "symbolic_leaves": False},
+           shards=16, timeout=900, path_timeout=30, mode="CH-E"),
+        CH("grammar_depth2_pairs", "vflib.props.c01:scen_accept",
+           {"kinds": "GRAMMAR2", "samples": 2, "keys": ["a"], "frameworks": ["pydantic"], "layouts": ["flat"], "symbolic_leaves": False},
            shards=16, timeout=900, path_timeout=30, mode="CH-E"),
         CH("datetime", "vflib.props.c01:scen_accept",
            {"kinds": "KINDS_DATE", "samples": 3, "keys": ["a"], "registries": ["datetime"], "frameworks": ["pydantic", "dataclasses", "attrs", "sqlmodel"]},
